@@ -188,7 +188,7 @@ class C17RoundTrip(EnumCheck):
         return len(c[0]) > 1 or c[3] != "none" or c[5] is not None
 
 
-INVALIDITIES = ("unknown-blocker", "duplicate-name", "unknown-group", "duplicate-group", "max-nodes-differ",
+INVALIDITIES = ("estimate-above-walltime-of-its-group", "unknown-blocker", "duplicate-name", "unknown-group", "duplicate-group", "max-nodes-differ",
                 "max-nodes-second-unset", "poll-interval-first-differs",
                 "poll-interval-differ", "hpc-type-differ", "estimate-above-walltime", "missing-estimate-size0",
                 "none", "estimate-equals-walltime")
@@ -227,6 +227,15 @@ def inject(data, inv):
             sp["poll_interval"] = 7
         else:
             sp["hpc_config"] = {"hpc_type": "local", "job_prefix": "job", "hpc": {}}
+    elif inv == "estimate-above-walltime-of-its-group":
+        # the job's own group has a short walltime; another group (and a longer, valid job there) exists
+        if len(groups) < 2 or len(jobs) < 2:
+            return False
+        groups[1]["submitter_params"]["hpc_config"]["hpc"]["walltime"] = "4:00:00"
+        jobs[0]["submission_group"] = groups[0]["name"]
+        jobs[0]["estimated_run_minutes"] = 3  # > 0:02:00
+        jobs[1]["submission_group"] = groups[1]["name"]
+        jobs[1]["estimated_run_minutes"] = 200  # valid in its own group, and the longest overall
     elif inv == "estimate-above-walltime":
         jobs[0]["estimated_run_minutes"] = 3
     elif inv == "estimate-equals-walltime":
@@ -298,7 +307,7 @@ class C17Invalid(EnumCheck):
 
 # =============================================================================== C19
 TOKENS = ["plain", "'single quoted'", '"double quoted"', "esc\\ aped", "''", "$HOME", "*", ";", "|", "#x",
-          "éü", '--k="v w"', "{}", "'{print $1}'", "${HOME}", "%s", "a=b", "\\\\", "~", "&&", ">out", "`id`", "$(id)"]
+          "éü", '--k="v w"', "'two  spaces'", '"tab\there"', "{}", "'{print $1}'", "${HOME}", "%s", "a=b", "\\\\", "~", "&&", ">out", "`id`", "$(id)"]
 NAME_ALPHABET = [None, "J", "a_b", "a-b", "a.b", "007", "Job.1-x_2"]
 PROBE_DIR = os.path.join(boot.WORK, "probes")
 
@@ -372,8 +381,11 @@ class C19Launch(EnumCheck):
             build_probes()
         self.saved = {k: os.environ.get(k) for k in ("SLURM_JOB_ID", "SLURM_NODEID", "SLURM_CPUS_ON_NODE", "LOCAL_SCRATCH")}
         os.makedirs(os.path.join(self.base, "scratch"), exist_ok=True)
+        self.saved.update({k: os.environ.get(k) for k in ("JADE_JOB_NAME", "JADE_RUNTIME_OUTPUT")})
+        # the runner itself may have been started inside another jade job: inherited values must not win
         os.environ.update(SLURM_JOB_ID="4711", SLURM_NODEID="0", SLURM_CPUS_ON_NODE="8",
-                          LOCAL_SCRATCH=os.path.join(self.base, "scratch"))
+                          LOCAL_SCRATCH=os.path.join(self.base, "scratch"),
+                          JADE_JOB_NAME="outer_job", JADE_RUNTIME_OUTPUT="/outer/output")
 
     def end(self):
         for k, v in self.saved.items():
